@@ -266,16 +266,6 @@ func (c *inlCtx) substituteExprCall(call *ast.CallExpr) ast.Expr {
 	if !ok || len(ret.Results) != 1 {
 		return nil
 	}
-	hasLit := false
-	ast.Inspect(ret.Results[0], func(n ast.Node) bool {
-		if _, ok := n.(*ast.FuncLit); ok {
-			hasLit = true
-		}
-		return !hasLit
-	})
-	if hasLit {
-		return nil
-	}
 	b := c.newBuilder(call, f)
 	if b == nil {
 		return nil
